@@ -121,6 +121,12 @@ func Templates() []Program {
 		// a commit: the failed write must not become visible
 		P("putx(a)w(b)", Begin(), PutX("a", "19"), Put("b", "24"), Commit()),
 		P("r(a)putx(a)w(b)", Begin(), Get("a"), PutX("a", "25"), Put("b", "26"), Commit()),
+		// one key written more than once inside the transaction, then an observation that a
+		// concurrent writer invalidates: the refused commit must leave the PRE-transaction value
+		// (not the transaction's own first write) and must not create or remove anything
+		P("w(a)w(a)r(b)", Begin(), Put("a", "27"), Put("a", "28"), Get("b"), Commit()),
+		P("w(d/t)d(d/t)r(b)", Begin(), Put("d/t", "29"), Del("d/t"), Get("b"), Commit()),
+		P("d(a)w(a)r(b)", Begin(), Del("a"), Put("a", "30"), Get("b"), Commit()),
 		P("pput(a)", PPut("a", "20")),
 		P("pdel(a)", PDel("a")),
 		P("pput(d/y)", PPut("d/y", "21")),
